@@ -19,6 +19,7 @@ def run(prog, chk):
     blocking_send_table(prog, chk)
     close_reset_table(prog, chk)
     prefix_table(prog, chk)
+    nonblocking_connect_rule(prog, chk)
     _run(prog, chk)
 
 
@@ -632,3 +633,53 @@ def prefix_table(prog, chk):
                 what = "expected a refusal whose reported length (header + payload) is 0 or more than the %d octets there - the reader waits; source: status %s, header %s + payload %s = %d%s" % (
                     k, hex(q.ret) if isinstance(q.ret, int) else q.ret, hl, dl, count, "" if ok else ": taken for garbage, the connection is closed")
             chk.ob("C14.prefix", inst, ok, what, loc=fn.loc(), fn=fn, nontrivial=k < total)
+
+
+def nonblocking_connect_rule(prog, chk):
+    """"A refused or timed-out connection ends the affected requests with a network error instead of blocking": the asynchronous client
+    never waits inside connect() - the socket is switched to non-blocking mode before the connection attempt (every path from the
+    socket's creation to connect() passes a successful ioctl(FIONBIO) / fcntl(O_NONBLOCK)), and the attempt's "in progress" outcome is
+    not treated as a failure."""
+    chk.rule("C14.nonblock", "async TCP: the socket is non-blocking before connect(); EINPROGRESS / EWOULDBLOCK is not a failure", floor=2)
+    fn = prog.fn("openSocket", "net_tcp_async.c")
+    conns = {b for b, i, c in fn.calls("connect")}
+    if not conns:
+        raise AnalysisBroken("openSocket: no connect() call")
+
+    class NB(Guard):
+        name = "non-blocking mode set"
+
+        def passes(self, f, e):
+            return False
+
+    def is_nb_call(c):
+        nm = c.get("fn") or ""
+        txt = show(c, fn)
+        return (nm == "ioctl" and "FIONBIO" in txt or nm in ("ioctlsocket",) or (nm == "fcntl" and "O_NONBLOCK" in txt)) or \
+               (nm == "ioctl" and len(c["a"]) > 1 and is_int(fn.resolve(strip(c["a"][1]))) and strip(fn.resolve(strip(c["a"][1])))["v"] == 0x5421)
+    nbs = {b for b, i, c in fn.calls() if is_nb_call(c)}
+    if not nbs:
+        w = True
+    else:
+        # remove the blocks that set the mode: is connect() still reachable from the entry?
+        seen, work = {fn.entry}, [fn.entry]
+        w = False
+        while work:
+            cur = work.pop()
+            if cur in conns:
+                w = True
+                break
+            if cur in nbs:
+                continue
+            for e in fn.succ[cur]:
+                if e.dst not in seen:
+                    seen.add(e.dst)
+                    work.append(e.dst)
+    chk.ob("C14.nonblock", "openSocket:connect<=nonblocking", not w,
+           "every path to connect() passes the switch to non-blocking mode%s" % ("" if not w else
+           "; a path reaches connect() without it: an unanswered connection attempt blocks the whole service for the kernel's retry period, the connect timeout is never evaluated"),
+           loc=fn.loc(), fn=fn)
+    # the in-progress outcome
+    txt = " ".join(show(fn.deep(fn.branch_cond(b)), fn) for b in fn.blocks if fn.branch_cond(b) is not None)
+    ok = ("EINPROGRESS" in txt or "115" in txt) and ("EWOULDBLOCK" in txt or "EAGAIN" in txt or "11" in txt)
+    chk.ob("C14.nonblock", "openSocket:in-progress", ok, "after connect() the error codes 'in progress' / 'would block' are told apart from failures", loc=fn.loc(), fn=fn)
